@@ -85,6 +85,11 @@ func c12Encode(ops []c12Op) []byte {
 			b = append(b, 3)
 		default:
 			n := len(o.data)
+			for n >= 1<<21 { // the length field holds 21 bits: a longer write is rendered as several
+				m := 1<<21 - 1
+				b = append(b, byte(o.kind), byte(m>>16), byte(m>>8), byte(m))
+				n -= m
+			}
 			b = append(b, byte(o.kind), byte(n>>16), byte(n>>8), byte(n))
 		}
 	}
@@ -368,6 +373,39 @@ func (s *c12Shape) Write(ctx context.Context, p thrift.TProtocol) error {
 				w(p.WriteString(ctx, "k"+strconv.Itoa(k)))
 				if err == nil {
 					w(p.WriteByte(ctx, int8(k)))
+				}
+			}
+			if err == nil {
+				w(p.WriteMapEnd(ctx))
+			}
+		case "blist": // list<string>, 16 elements sharing f.n bytes
+			w(p.WriteFieldBegin(ctx, "f", thrift.LIST, id))
+			if err == nil {
+				w(p.WriteListBegin(ctx, thrift.STRING, 16))
+			}
+			for k := 0; k < 16 && err == nil; k++ {
+				m := f.n / 16
+				if k == 15 {
+					m = f.n - 15*(f.n/16)
+				}
+				w(p.WriteString(ctx, strings.Repeat("e", m)))
+			}
+			if err == nil {
+				w(p.WriteListEnd(ctx))
+			}
+		case "bmap": // map<string,binary>, 8 entries sharing f.n bytes
+			w(p.WriteFieldBegin(ctx, "f", thrift.MAP, id))
+			if err == nil {
+				w(p.WriteMapBegin(ctx, thrift.STRING, thrift.STRING, 8))
+			}
+			for k := 0; k < 8 && err == nil; k++ {
+				m := f.n / 8
+				if k == 7 {
+					m = f.n - 7*(f.n/8)
+				}
+				w(p.WriteString(ctx, "k"+strconv.Itoa(k)))
+				if err == nil {
+					w(p.WriteBinary(ctx, bytes.Repeat([]byte{0xb2}, m)))
 				}
 			}
 			if err == nil {
@@ -732,7 +770,11 @@ func runC12(r *Rng, n int) {
 		case i%5 < 4: // a real protocol writing a shape
 			c12ProtoCase(r, i)
 		default:
-			c12CallCase(r, i)
+			if r.Chance(35) {
+				c12SendCase(r, i)
+			} else {
+				c12CallCase(r, i)
+			}
 		}
 		Stat("evaluations")
 	}
